@@ -527,6 +527,14 @@ def concrete_violation():
         pd_ = np.asarray(m.pdf(g), dtype=float)
         if np.any(pd_ < 0) or not np.allclose(np.asarray(m.log_probability_density(g[10:30]), dtype=float), np.log(pd_[10:30]), rtol=1e-8, atol=1e-10):
             return True, f'{fam}: pdf negative or log_probability_density != log(pdf)'
+    # quantiles on a small data scale, with either root finder
+    ks_ = GaussianKDE()
+    ks_.fit(1e-9 * np.array([0.0, 1.0, 2.0, 3.0, 4.0, 7.0]))
+    for meth in ('bisect', 'chandrupatla'):
+        qq = np.array([0.1, 0.5, 0.9])
+        back = np.asarray(ks_.cdf(ks_.percent_point(qq, method=meth)), dtype=float)
+        if not np.allclose(back, qq, atol=1e-6):
+            return True, f'GaussianKDE fitted on data of scale 1e-9: cdf(percent_point(q, method={meth!r})) = {back.tolist()} for q = {qq.tolist()}'
     # weighted kernel estimate: CDF increments = integral of the density
     from scipy import integrate
     xs = rs.normal(size=30)
